@@ -738,6 +738,9 @@ def memfs_check(spec, tier, seed, replay=None):
                known_findings_reproduced=sorted(set(reproduced) | (st['known_hits'] & set(open_known))),
                op_histogram=st['ops'], outcome_histogram=st['hist'], judged_steps=st['judged'], tolerated_order_dependent=st['dead_order'],
                searched_after_break=searched, notes=V.notes, build_seconds=dict(harness=round(dth, 1), driver=round(dtd, 1), proofs=round(dtl, 1)))
+    cov.update(spec.get('extra_cov', {}))
+    for nf in spec.get('extra_fail', [])[:2]:
+        V.violation('extra' + str(len(V.violations)), nf)
     return V.finish('proof', cov, spec['assumptions'])
 
 
@@ -778,7 +781,9 @@ def analyse_sessions(spec, hists, open_known, tag):
                 if j:
                     cls = f[2] if len(f) > 2 else '-'
                     cls = j[2] if len(j) > 2 and j[2] else cls
-                    if cls != '-' and cls in open_known:
+                    if cls != '-' and cls in spec.get('foreign_classes', ()):
+                        pass      # a finding class that belongs to (and is reported under) another property
+                    elif cls != '-' and cls in open_known:
                         known_hits.add(cls)
                         known_fail_count += 1
                     else:
